@@ -177,6 +177,7 @@ class Ctx:
         self.inconclusive: Counter = Counter()
         self.extra: dict[str, Any] = {}
         self.last_failure: tuple | None = None
+        self.current_case: Any = None       # machines keep the history executed so far here (see run_machine)
 
     # -- recording -------------------------------------------------------------------------------
     def record(self, case: Any, res: Result, sample: Any = None) -> None:
@@ -265,6 +266,15 @@ class Ctx:
             self.add_failure(*self.last_failure)
         except hypothesis.errors.Flaky as exc:
             self._flaky(exc)
+        except (HarnessError, KeyboardInterrupt):
+            raise
+        except Exception as exc:  # noqa: BLE001
+            # an exception raised while a rule or invariant was executing repository code: a failure of the property on
+            # the history executed so far (Hypothesis has already shrunk it; the last executed history is the minimal one)
+            frame = repo_frame(exc.__traceback__)
+            if frame is None or self.current_case is None:
+                raise
+            self.add_failure(self.current_case, [f"exception in repository code: {type(exc).__name__} @ {frame} :: {str(exc)[:200]}"])
 
     def _flaky(self, exc) -> None:
         """The same case failed once and passed when Hypothesis re-ran it in the same process.
